@@ -91,6 +91,21 @@ CHECKS = {
             "(a) On every explored execution (all sectors in scope; Ok, Unstable and GammaError exits; metadata on/off) every to_f64 argument is a constant or exactly the designated coordinate, narrowed once, and the multiset of from_f64 arguments (Gamma result excepted) is identical across all points of a sector, so no user data passes through f64. (b) A double-double type run through decompose_for_tropical on structured SPD families and graph L matrices reproduces the exact inverse, determinant and factor identities to 2^-86*cond, 10^10 times tighter than any f64 detour allows, without a single to_f64 call.",
             "Trusted: instrumented scalar types (harness code), exact rational algebra. 'Any type' is represented by three types.",
             "DESIGN.md §5/C19"),
+    "C01": ("c01", "model_checking",
+            "stateless deviation-bounded exploration of the production path against a reference sampler built only from oracle pieces; exact closed-form anchors (massive tadpole) on the full alphabet product",
+            "C01 equates two integrals; what bounded exploration decides is the pointwise refinement: on every explored execution with default settings the returned jacobian equals the weight of the paper's tropical sampler computed independently (own table, sector, kappas, exact U and F, own normalisation) and the returned momenta satisfy the routing-free Gaussian-map identity with the oracle's own Gamma quantile and Box-Muller values, in two routings; the absolute normalisation is pinned exactly on the E=1 family where the jacobian is constant over the hypercube, so its mean equals its value. The step from pointwise refinement to equality of the integrals is a cited theorem and is listed as an assumption in the evidence.",
+            "Trusted: oracle crate; the continuum theorem (Schwinger/Feynman representation, Borinsky 2020). Not decided here: the integral identity itself.",
+            "DESIGN.md §5/C01, §8"),
+    "C17": ("history+sched", "model_checking",
+            "exhaustive call histories to depth d on two samplers (differential oracle); preemption-bounded DFS over all thread interleavings under an own controlled scheduler on real OS threads; all E! hash orders; child processes",
+            "All operation sequences up to the depth over a 42-operation alphabet are re-executed on freshly built samplers in single-threaded worker processes and every result is compared bit-for-bit with the same call on a fresh sampler, serialisations after every step; all schedules of 2 (thorough: also 3) threads sharing a sampler with at most p preemptions at scalar-operation granularity are executed under a baton scheduler (DFS with prefix replay, divergence = machinery error, a planted impurity must be caught first); get_dimension/from_rng/sample under all E! hash iteration orders; digests across child processes; from_rng vs x-space equality and draw count; settings invariance.",
+            "Trusted: the baton scheduler (harness code; replay determinism asserted per scenario). Preemption only at scalar-operation boundaries of generic code: races inside non-generic f64 code are outside (no shared state there today - source scan reported as assumption).",
+            "DESIGN.md §5/C17, §8"),
+    "C18": ("history", "model_checking",
+            "every accepted configuration round-tripped through two formats; restored samplers sampled bit-for-bit on the explored answer set",
+            "Every accepted configuration of G-small is serialised and restored through JSON and CBOR (re-serialisation byte-identical, table and accessors equal), and for every admissible configuration of the sampling family samplers restored through JSON, CBOR and CBOR-then-JSON give bit-identical samples (metadata on) on the whole 1-deviation answer set of up to 6 sectors.",
+            "Trusted: serde_json with float_roundtrip, ciborium. JSON cannot carry non-finite values; such samplers go through CBOR only.",
+            "DESIGN.md §5/C18"),
 }
 
 NOT_BUILT_REASON = "check not built yet in this session (see DESIGN.md §10 for the plan); not claimed until it passes and has been mutation-tested"
